@@ -122,6 +122,7 @@ func (v *StructSchema) process(ctx *p.SchemaCtx) {
 		subCtx.Path.Push(&fieldKey)
 		subCtx.DType = processor.getType()
 		subCtx.Exit = false
+		subCtx.CanCatch = false
 		processor.process(subCtx)
 		subCtx.Path.Pop()
 	}
@@ -203,6 +204,8 @@ func (v *StructSchema) validate(ctx *p.SchemaCtx) {
 		subCtx.ValPtr = destPtr
 		subCtx.Path.Push(&fieldKey)
 		subCtx.DType = schema.getType()
+		subCtx.Exit = false
+		subCtx.CanCatch = false
 		schema.validate(subCtx)
 		subCtx.Path.Pop()
 	}
